@@ -824,7 +824,7 @@ where
                     "HARNESS-ERROR property={} panic in harness: {} at {}",
                     env.property, p.message, p.location
                 );
-                eprintln!("  choices: {:?}", case.ch.data());
+                eprintln!("  choices (first 64): {:?}", &case.ch.data()[..case.ch.data().len().min(64)]);
                 std::process::exit(2);
             }
         }
